@@ -59,6 +59,7 @@ type cfg struct {
 	Reqs    int
 	Preempt int
 	Bursts  int // how many arrivals may come back to back with the previous one (no settle point in between)
+	Queue   int // receive-queue size of the per-peer connections (0 = default 16)
 }
 
 func (c cfg) String() string {
@@ -66,7 +67,11 @@ func (c cfg) String() string {
 	for _, i := range c.Items {
 		n = append(n, advItems(64)[i].Name)
 	}
-	return fmt.Sprintf("udp-server peers=%d requests-each=%d adversary=[%s] bursts<=%d preempt<=%d", c.Peers, c.Reqs, strings.Join(n, ","), c.Bursts, c.Preempt)
+	q := ""
+	if c.Queue != 0 {
+		q = fmt.Sprintf(" receive-queue=%d", c.Queue)
+	}
+	return fmt.Sprintf("udp-server peers=%d requests-each=%d adversary=[%s] bursts<=%d preempt<=%d%s", c.Peers, c.Reqs, strings.Join(n, ","), c.Bursts, c.Preempt, q)
 }
 
 func scenario(c cfg) *mcx.Scenario {
@@ -86,7 +91,7 @@ func scenario(c cfg) *mcx.Scenario {
 			connOf := map[string]*client.Conn{}
 			vrt.App("env", func() {
 				const maxSize = 64
-				u = srvw.NewUDP(srvw.UDPOpts{MaxMsgSize: maxSize, Handler: func(w *responsewriter.ResponseWriter[*client.Conn], r *pool.Message) {
+				u = srvw.NewUDP(srvw.UDPOpts{MaxMsgSize: maxSize, QueueSize: c.Queue, Handler: func(w *responsewriter.ResponseWriter[*client.Conn], r *pool.Message) {
 					ra := w.Conn().RemoteAddr().String()
 					b, _ := r.ReadBody()
 					handled[ra] = append(handled[ra], string(b))
@@ -211,6 +216,10 @@ func main() {
 	scs = append(scs, scenario(cfg{Items: []int{3, 5, 7}, Peers: 3, Reqs: ev.Pick(r, 1, 2), Bursts: 1}))
 	scs = append(scs, scenario(cfg{Items: []int{8}, Peers: 2, Reqs: 1, Bursts: 1, Preempt: ev.Pick(r, 1, 2)}))
 	scs = append(scs, scenario(cfg{Items: []int{1}, Peers: 2, Reqs: 1, Bursts: 1, Preempt: ev.Pick(r, 1, 2)}))
+	// a peer that sends faster than its handler runs: the per-connection queue (size 1) is full while more datagrams arrive
+	scs = append(scs, scenario(cfg{Items: []int{8}, Peers: 1, Reqs: 4, Bursts: 4, Queue: 1}))
+	scs = append(scs, scenario(cfg{Items: []int{8}, Peers: 2, Reqs: ev.Pick(r, 2, 3), Bursts: ev.Pick(r, 3, 6), Queue: 1}))
+	addPairs(r, &scs)
 	addDiscovery(r, &scs)
 	addStreamServers(r, &scs)
 	sum := mcx.Explore(r, scs, mcx.Config{Wall: ev.Pick(r, 4*time.Minute, 30*time.Minute)})
